@@ -1570,11 +1570,17 @@ pub fn generate(run_seed: u64, index: u64) -> Case {
         slots.push(s);
     }
     let align = arch.insn_align();
-    let region = match rng.below(5) {
+    let region = match rng.below(8) {
         0 => 0x1000,
         1 => 0x40_0000,
         2 => 0x7fff_0000u64,
         3 if arch.addr_bits() == 64 => 0x3fff_ffff_0000_0000,
+        // addresses with bit 31 set (sign-extension of 32-bit address arithmetic), and the
+        // last 64 KiB below 2^32
+        4 => 0x8000_0000u64,
+        5 => 0xfffe_0000u64,
+        // 64-bit code lying across the 2^32 line
+        6 if arch.addr_bits() == 64 => 0xffff_f000u64 + if rng.chance(1, 2) { 0xf00 } else { 0 },
         _ => 0x1_0000 * rng.range(1, 0xfff),
     };
     let base = if rng.chance(1, 3) {
